@@ -24,6 +24,17 @@ Enter(k) == /\ Len(stack) < MaxDepth
             /\ stack' = Append(stack, cur)
             /\ cur' = Apply(cur, EnterKw[k])
 
+\* the manager object is created, then set_options(SetKw[1]) runs, then the block is entered: the snapshot restored
+\* on exit is the one at ENTRY (it contains the set_options), not the one at creation
+EnterDeferred == /\ Len(stack) < MaxDepth
+                 /\ stack' = Append(stack, Apply(cur, SetKw[1]))
+                 /\ cur' = Apply(Apply(cur, SetKw[1]), EnterKw[2])
+
+\* a function decorated with global_options(EnterKw[3]); afterwards set_options(SetKw[1]); the function is called twice:
+\* inside it the decoration's options are in force on top of the CURRENT ones, after each call the current ones are back
+DecoratedCalls == /\ cur' = Apply(cur, SetKw[1])
+                  /\ UNCHANGED stack
+
 \* a block entered with an unknown option name: KeyError, nothing changes, no block is opened
 EnterBad == /\ Len(stack) < MaxDepth
             /\ UNCHANGED <<cur, stack>>
@@ -56,6 +67,8 @@ Mutate == UNCHANGED <<cur, stack>>
 
 Next == \/ \E k \in 1..3 : Enter(k)
         \/ EnterBad
+        \/ EnterDeferred
+        \/ DecoratedCalls
         \/ ExitOk
         \/ ExitExc
         \/ ExitExc2
